@@ -143,6 +143,35 @@ func extractTypeTables(M *GenModel, tm *TypeModel) *typeTables {
 							tt.claimed[s] = true
 						}
 					}
+					if x.Op == token.EQL && isIdentNamed(x.Y, "k") {
+						if s, ok := strLit(info, x.X); ok {
+							tt.claimed[s] = true
+						}
+					}
+				case *ast.SwitchStmt:
+					// switch k { case "a", "b": continue }
+					if x.Tag != nil && isIdentNamed(x.Tag, "k") {
+						for _, cl := range x.Body.List {
+							cc, ok := cl.(*ast.CaseClause)
+							if !ok {
+								continue
+							}
+							skips := false
+							for _, st := range cc.Body {
+								if br, ok := st.(*ast.BranchStmt); ok && br.Tok == token.CONTINUE {
+									skips = true
+								}
+							}
+							if !skips {
+								continue
+							}
+							for _, e := range cc.List {
+								if s, ok := strLit(info, e); ok {
+									tt.claimed[s] = true
+								}
+							}
+						}
+					}
 				case *ast.AssignStmt:
 					if len(x.Lhs) == 1 && len(x.Rhs) == 1 {
 						if ix, ok := x.Lhs[0].(*ast.IndexExpr); ok && isIdentNamed(ix.Index, "k") && isIdentNamed(x.Rhs[0], "v") {
@@ -178,6 +207,36 @@ func extractTypeTables(M *GenModel, tm *TypeModel) *typeTables {
 					case *ast.CallExpr:
 						if sel, ok := y.Fun.(*ast.SelectorExpr); ok && sel.Sel.Name == "Serialize" && thisField(info, sel.X) == fv {
 							okSer = true
+						}
+						// the block handed to a local helper: put(this.F), where put serialises its
+						// parameter and stores the result under the parameter's Name()
+						if id, ok := y.Fun.(*ast.Ident); ok && len(y.Args) >= 1 && thisField(info, y.Args[0]) == fv {
+							if lit := localFuncLit(info, fd, id); lit != nil && len(lit.Type.Params.List) >= 1 && len(lit.Type.Params.List[0].Names) == 1 {
+								pn := lit.Type.Params.List[0].Names[0].Name
+								s1, s2 := false, false
+								ast.Inspect(lit.Body, func(q ast.Node) bool {
+									switch z := q.(type) {
+									case *ast.CallExpr:
+										if sel, ok := z.Fun.(*ast.SelectorExpr); ok && sel.Sel.Name == "Serialize" && isIdentNamed(sel.X, pn) {
+											s1 = true
+										}
+									case *ast.AssignStmt:
+										if len(z.Lhs) == 1 {
+											if ix, ok := z.Lhs[0].(*ast.IndexExpr); ok && isIdentNamed(ix.X, "m") {
+												if c, ok := ix.Index.(*ast.CallExpr); ok {
+													if sel, ok := c.Fun.(*ast.SelectorExpr); ok && sel.Sel.Name == "Name" && isIdentNamed(sel.X, pn) {
+														s2 = true
+													}
+												}
+											}
+										}
+									}
+									return true
+								})
+								if s1 && s2 {
+									okSer, okStore = true, true
+								}
+							}
 						}
 					case *ast.AssignStmt:
 						if len(y.Lhs) == 1 {
@@ -437,3 +496,21 @@ func checkC12(res *Result) {
 }
 
 func path0(p string) string { return p[strings.LastIndex(p, "/")+1:] }
+
+
+// localFuncLit: the function literal a local variable of fd was defined with (f := func…).
+func localFuncLit(info *types.Info, fd *ast.FuncDecl, id *ast.Ident) *ast.FuncLit {
+	obj := info.ObjectOf(id)
+	var out *ast.FuncLit
+	ast.Inspect(fd.Body, func(n ast.Node) bool {
+		if as, ok := n.(*ast.AssignStmt); ok && len(as.Lhs) == 1 && len(as.Rhs) == 1 {
+			if l, ok := as.Lhs[0].(*ast.Ident); ok && info.ObjectOf(l) == obj {
+				if fl, ok := as.Rhs[0].(*ast.FuncLit); ok {
+					out = fl
+				}
+			}
+		}
+		return out == nil
+	})
+	return out
+}
